@@ -32,15 +32,22 @@ pub fn sockprobe_main(args: &[String]) -> i32 {
     let ms = |s: &str| -> Option<Duration> { if s == "none" { None } else { Some(Duration::from_millis(s.parse().unwrap())) } };
     let ts = TimeoutSettings::new(ms(&args[2]), ms(&args[3]), ms(&args[4]), 0).ok();
     let payload = unhex(&args[5]);
+    let recv = args.get(6).map(|a| a != "norecv").unwrap_or(true);
     // marker so that the checker knows where the probe's own sockets start
     let _ = std::io::stderr().write_all(b"PROBE-BEGIN\n");
     let r: Result<(), GDErrorKind> = match kind {
         "udp" => UdpSocketImpl::new(&addr, &ts).and_then(|mut s| {
             s.send(&payload)?;
+            if !recv {
+                return Ok(());
+            }
             s.receive(Some(64)).map(|_| ())
         }),
         _ => TcpSocketImpl::new(&addr, &ts).and_then(|mut s| {
             s.send(&payload)?;
+            if !recv {
+                return Ok(());
+            }
             s.receive(None).map(|_| ())
         }),
     }
@@ -226,6 +233,10 @@ impl C12 {
         let v6 = cx.rng.bool();
         let vals = [50u64, 150, 400, 1000, 2500];
         let (r, w, c) = (*cx.rng.pick(&vals), *cx.rng.pick(&vals), *cx.rng.pick(&vals));
+        // any of the three may be None ("block indefinitely"): the others must still be applied. With no read
+        // timeout the probe does not wait for a reply from the silent peer.
+        let (r_o, w_o, c_o) = (if cx.rng.chance(1, 6) { None } else { Some(r) }, if cx.rng.chance(1, 5) { None } else { Some(w) }, if cx.rng.chance(1, 5) { None } else { Some(c) });
+        let opt = |o: Option<u64>| o.map(|v| v.to_string()).unwrap_or_else(|| "none".into());
         let payload: Vec<u8> = match cx.rng.below(4) {
             0 => vec![0xff, 0xff, 0xff, 0xff, b'T'],
             1 => cx.rng.bytes(1),
@@ -253,7 +264,7 @@ impl C12 {
         let exe = std::env::current_exe().unwrap();
         let out = verif_root().join(".work").join(format!("strace-{}-{}.txt", std::process::id(), cx.idx));
         let mut cmd = std::process::Command::new("strace");
-        cmd.args(["-f", "-xx", "-s", "70000", "-e", "trace=socket,bind,connect,setsockopt,poll,ppoll,sendto,sendmsg,recvfrom,recv,read,write", "-o"]).arg(&out).arg(&exe).args(["sockprobe", if tcp { "tcp" } else { "udp" }, &addr.to_string(), &r.to_string(), &w.to_string(), &c.to_string(), &hex(&payload)]);
+        cmd.args(["-f", "-xx", "-s", "70000", "-e", "trace=socket,bind,connect,setsockopt,poll,ppoll,sendto,sendmsg,recvfrom,recv,read,write", "-o"]).arg(&out).arg(&exe).args(["sockprobe", if tcp { "tcp" } else { "udp" }, &addr.to_string(), &opt(r_o), &opt(w_o), &opt(c_o), &hex(&payload), if r_o.is_some() { "recv" } else { "norecv" }]);
         let res = proc::run(cmd, Duration::from_secs(20));
         cx.eval();
         let log = std::fs::read_to_string(&out).unwrap_or_default();
@@ -263,13 +274,16 @@ impl C12 {
             return cx.inconclusive("strace produced no log");
         }
         let stderr = String::from_utf8_lossy(&res.stderr).to_string();
-        let (problems, events) = check_trace(&log, &addr, Some(r), Some(w), Some(c), &payload, tcp);
+        let (problems, events) = check_trace(&log, &addr, r_o, w_o, c_o, &payload, tcp);
+        if r_o.is_none() || w_o.is_none() || c_o.is_none() {
+            cx.count("strace-cases-with-a-None-timeout");
+        }
         cx.count_n("syscall-events-checked", events as u64);
         let label = format!("strace|{}|{}", if tcp { "tcp" } else { "udp" }, if v6 { "v6" } else { "v4" });
         if problems.is_empty() {
             cx.shape(&label);
             cx.nontrivial(hash64(label.as_bytes()) ^ hash64(&payload) ^ r ^ (w << 12) ^ (c << 24));
-            cx.sample(|| json!({"kind": label, "timeouts_ms": [r, w, c], "payload_len": payload.len(), "syscall_events": events, "probe": stderr.lines().last()}));
+            cx.sample(|| json!({"kind": label, "timeouts_ms": [r_o, w_o, c_o], "payload_len": payload.len(), "syscall_events": events, "probe": stderr.lines().last()}));
         } else {
             let class = if problems.iter().any(|p| p.contains("SO_RCVTIMEO")) {
                 "read-timeout-not-applied"
@@ -286,7 +300,7 @@ impl C12 {
             } else {
                 "other"
             };
-            cx.violation(format!("C12 syscall {class} {label}"), || json!({"problems": problems, "addr": addr.to_string(), "timeouts_ms": [r, w, c], "probe_stderr": stderr, "trace_excerpt": log.lines().filter(|l| l.contains("socket(") || l.contains("setsockopt") || l.contains("sendto") || l.contains("connect(") || l.contains("poll")).take(30).collect::<Vec<_>>()}));
+            cx.violation(format!("C12 syscall {class} {label}"), || json!({"problems": problems, "addr": addr.to_string(), "timeouts_ms": [r_o, w_o, c_o], "probe_stderr": stderr, "trace_excerpt": log.lines().filter(|l| l.contains("socket(") || l.contains("setsockopt") || l.contains("sendto") || l.contains("connect(") || l.contains("poll")).take(30).collect::<Vec<_>>()}));
         }
     }
 
@@ -386,23 +400,50 @@ impl C12 {
         let v6 = cx.rng.bool();
         let timeout = *cx.rng.pick(&[50u64, 150, 400]);
         let d = Duration::from_millis(timeout);
-        let ts = TimeoutSettings::new(Some(d), Some(d), Some(d), 0).ok();
         let mode = cx.rng.below(3);
+        // the read timeout must bound the wait whether or not the write / connect timeouts are set
+        let none_variant = if mode == 0 { cx.rng.below(4) } else { 0 };
+        let ts = match none_variant {
+            1 => TimeoutSettings::new(Some(d), None, Some(d), 0).ok(),
+            2 => TimeoutSettings::new(Some(d), Some(d), None, 0).ok(),
+            3 => TimeoutSettings::new(Some(d), None, None, 0).ok(),
+            _ => TimeoutSettings::new(Some(d), Some(d), Some(d), 0).ok(),
+        };
         let ip = lo(v6);
         let listener = match std::net::TcpListener::bind(SocketAddr::new(ip, 0)) {
             Ok(l) => l,
             Err(_) => return cx.inconclusive("cannot bind loopback listener"),
         };
         let port = listener.local_addr().unwrap().port();
-        let label = format!("eco|{}|{}", if v6 { "v6" } else { "v4" }, ["accept-never-write", "refused", "valid"][mode as usize]);
+        let label = format!("eco|{}|{}{}", if v6 { "v6" } else { "v4" }, ["accept-never-write", "refused", "valid"][mode as usize], ["", "|write=None", "|connect=None", "|write=None,connect=None"][none_variant as usize]);
         let t0;
         let o;
         match mode {
             0 => {
                 // accepted by the kernel backlog, never answered
+                // run on a helper thread with a deadline: if no timeout is applied the query blocks until the
+                // listener is dropped, which resets the connection and lets the thread end
                 t0 = Instant::now();
-                o = guarded(|| gamedig::games::eco::query_with_timeout(&ip, Some(port), &ts).map(|_| ()).map_err(|e| e.kind)).0;
-                drop(listener);
+                let (tx, rx) = std::sync::mpsc::channel();
+                let h = std::thread::spawn(move || {
+                    let r = guarded(|| gamedig::games::eco::query_with_timeout(&ip, Some(port), &ts).map(|_| ()).map_err(|e| e.kind)).0;
+                    let _ = tx.send(r);
+                });
+                let deadline = Duration::from_millis(timeout * 8) + Duration::from_secs(6);
+                match rx.recv_timeout(deadline) {
+                    Ok(r) => {
+                        o = r;
+                        drop(listener);
+                        let _ = h.join();
+                    }
+                    Err(_) => {
+                        drop(listener);
+                        let _ = rx.recv_timeout(Duration::from_secs(5));
+                        cx.eval();
+                        cx.violation(format!("C12 timeout-not-bounding eco {}{}", if v6 { "v6" } else { "v4" }, if none_variant > 0 { " with-a-None-timeout" } else { "" }), || json!({"case": label, "what": "the query was still blocked after the deadline; it only returned (if at all) once the server side was torn down", "deadline_ms": deadline.as_millis() as u64, "timeout_ms": timeout}));
+                        return;
+                    }
+                }
             }
             1 => {
                 drop(listener);
@@ -601,7 +642,7 @@ impl Check for C12 {
     fn id(&self) -> &'static str { "C12" }
     fn level(&self) -> &'static str { "fault_enumeration" }
     fn rule(&self) -> String {
-        "real loopback sockets. (1) syscall log: a child running UdpSocketImpl/TcpSocketImpl new+send+receive under strace -f for UDP/TCP x IPv4/IPv6 x timeout triples x payloads; an offline checker asserts SO_RCVTIMEO/SO_SNDTIMEO equal to the configured values on every socket before its first I/O, a non-blocking connect polled with the configured connect timeout, wire bytes equal to the payload and the destination equal to the caller's address. (2) behaviour: 13 protocol entry points + Eco against loopback servers that fall silent after 0-3 replies, keep a TCP connection open without writing, or refuse, for timeouts {50,150,400} ms x retries 0-2 x IPv4/IPv6: error class and elapsed <= (retries+1) x 8 x timeout + 3 s (a breach is re-run twice; only a 3-fold breach counts). (3) integrity: direct send/receive against an echo peer for payload sizes {0,1,2,1023,1024,1025,6144,65507} and random, reply truncated to the requested size. (4) fidelity: the same reactive model server scripted and over loopback gives identical results. non-trivial = a case whose oracle ran to a verdict; distinct by (kind, parameters, payload)".into()
+        "real loopback sockets. (1) syscall log: a child running UdpSocketImpl/TcpSocketImpl new+send+receive under strace -f for UDP/TCP x IPv4/IPv6 x timeout triples (each member Some or None) x payloads; an offline checker asserts SO_RCVTIMEO/SO_SNDTIMEO equal to the configured values on every socket before its first I/O, a non-blocking connect polled with the configured connect timeout, wire bytes equal to the payload and the destination equal to the caller's address. (2) behaviour: 13 protocol entry points + Eco against loopback servers that fall silent after 0-3 replies, keep a TCP connection open without writing, or refuse (Eco also with the write and/or connect timeout None), for timeouts {50,150,400} ms x retries 0-2 x IPv4/IPv6: error class and elapsed <= (retries+1) x 8 x timeout + 3 s (a breach is re-run twice; only a 3-fold breach counts). (3) integrity: direct send/receive against an echo peer for payload sizes {0,1,2,1023,1024,1025,6144,65507} and random, reply truncated to the requested size. (4) fidelity: the same reactive model server scripted and over loopback gives identical results. non-trivial = a case whose oracle ran to a verdict; distinct by (kind, parameters, payload)".into()
     }
     fn assumptions(&self) -> Vec<String> {
         vec![
